@@ -1311,3 +1311,190 @@ def owned_live_at_yield(body, L):
         for n in body.succ(bb):
             st.append((n, 0))
     return sorted(set(hits))
+
+
+# ---------------------------------------------------------------------------
+# case tables of small Option/Result/bool-valued functions, over control flow AND combinator chains
+
+
+def value_cases(prog, t, atom, depth=0):
+    """Symbolic case split of a term that denotes an Option / Result / bool built with std combinators.
+    atom(term) -> name | None recognises the primitive tests (e.g. `Weak::upgrade(..)` -> "weak", `is_closed(..)` -> "closed").
+    Returns a list of (conds, outcome): conds = tuple of (name, value) pairs, outcome in Some/None/Ok/Err/true/false or
+    "?<what>" when the term is not understood (callers must treat "?" outcomes as refuting)."""
+    if depth > 12:
+        return [((), "?depth")]
+    s = strip_identity(t)
+    nm = atom(s)
+    if nm is not None:
+        kind = nm[1] if isinstance(nm, tuple) else "option"
+        name = nm[0] if isinstance(nm, tuple) else nm
+        if kind == "bool":
+            return [(((name, "true"),), "true"), (((name, "false"),), "false")]
+        if kind == "result":
+            return [(((name, "Ok"),), "Ok"), (((name, "Err"),), "Err")]
+        return [(((name, "Some"),), "Some"), (((name, "None"),), "None")]
+    if s[0] == "const" and s[1] in ("true", "false", True, False):
+        return [((), str(s[1]).lower())]
+    if s[0] == "agg":
+        for v in ("Some", "None", "Ok", "Err"):
+            if str(s[2]).endswith("::" + v):
+                return [((), v)]
+        return [((), "?agg")]
+    if s[0] == "unop" and s[1] == "Not":
+        return [(c, {"true": "false", "false": "true"}.get(o, "?not")) for c, o in value_cases(prog, s[2], atom, depth + 1)]
+    if s[0] == "phi":
+        out = []
+        for i, a in enumerate(s[1]):
+            out.extend(value_cases(prog, a, atom, depth + 1))
+        return out
+    if s[0] == "variant" or s[0] == "field":
+        # payload of a `?`: Continue(x) of Try::branch(x) -- the value x on its success side
+        inner = s
+        while inner[0] in ("variant", "field"):
+            inner = strip_identity(inner[1])
+        if inner[0] == "call" and name_matches(inner[1], "Try::branch"):
+            return [(c, o) for c, o in value_cases(prog, inner[2][0], atom, depth + 1) if o in ("Some", "Ok")]
+        return [((), "?proj")]
+    if s[0] != "call":
+        return [((), "?" + s[0])]
+    fn, args = s[1], s[2]
+
+    def closure_ret(ct):
+        ct = strip_identity(ct)
+        if ct[0] == "agg" and ct[1] == "closure" and ct[2] in prog.bodies:
+            return Origins(prog.bodies[ct[2]]).of_local(0)
+        if ct[0] == "fnptr" and ct[1] in prog.bodies:
+            return Origins(prog.bodies[ct[1]]).of_local(0)
+        return None
+
+    def join(xs, f):
+        out = []
+        for c, o in xs:
+            for c2, o2 in f(o):
+                out.append((c + c2, o2))
+        return out
+    if name_matches(fn, ("Option::map", "Result::map", "Result::map_err", "Option::as_ref", "Option::as_mut", "Option::cloned", "Option::copied", "Option::inspect", "Result::inspect_err",
+                         "Option::as_deref", "Result::as_ref")):
+        return value_cases(prog, args[0], atom, depth + 1)
+    if name_matches(fn, ("Option::and_then", "Result::and_then")):
+        r = closure_ret(args[1])
+        if r is None:
+            return [((), "?and_then")]
+        return join(value_cases(prog, args[0], atom, depth + 1), lambda o: value_cases(prog, r, atom, depth + 1) if o in ("Some", "Ok") else [((), o)])
+    if name_matches(fn, "Option::filter"):
+        r = closure_ret(args[1])
+        if r is None:
+            return [((), "?filter")]
+        return join(value_cases(prog, args[0], atom, depth + 1),
+                    lambda o: [(c, "Some" if o2 == "true" else "None" if o2 == "false" else o2) for c, o2 in value_cases(prog, r, atom, depth + 1)] if o == "Some" else [((), o)])
+    if name_matches(fn, ("bool::then_some", "bool::then")):
+        return [(c, {"true": "Some", "false": "None"}.get(o, o)) for c, o in value_cases(prog, args[0], atom, depth + 1)]
+    if name_matches(fn, ("Option::ok_or_else", "Option::ok_or")):
+        return [(c, {"Some": "Ok", "None": "Err"}.get(o, o)) for c, o in value_cases(prog, args[0], atom, depth + 1)]
+    if name_matches(fn, ("Result::ok",)):
+        return [(c, {"Ok": "Some", "Err": "None"}.get(o, o)) for c, o in value_cases(prog, args[0], atom, depth + 1)]
+    if name_matches(fn, ("Option::is_some", "Result::is_ok")):
+        return [(c, {"Some": "true", "None": "false", "Ok": "true", "Err": "false"}.get(o, o)) for c, o in value_cases(prog, args[0], atom, depth + 1)]
+    if name_matches(fn, ("Option::is_none", "Result::is_err")):
+        return [(c, {"Some": "false", "None": "true", "Ok": "false", "Err": "true"}.get(o, o)) for c, o in value_cases(prog, args[0], atom, depth + 1)]
+    if name_matches(fn, ("Option::unwrap_or", "Option::map_or", "Option::is_some_and", "Option::is_none_or")):
+        # bool-valued forms: `x.map(|v| p(v)).unwrap_or(d)`, `x.map_or(d, |v| p(v))`, `x.is_some_and(|v| p(v))`
+        if name_matches(fn, "Option::unwrap_or"):
+            src, dflt, pred = args[0], args[1], None
+            ss = strip_identity(src)
+            if ss[0] == "call" and name_matches(ss[1], "Option::map"):
+                pred = closure_ret(ss[2][1])
+                src = ss[2][0]
+        elif name_matches(fn, "Option::map_or"):
+            src, dflt, pred = args[0], args[1], closure_ret(args[2])
+        else:
+            src, pred = args[0], closure_ret(args[1])
+            dflt = ("const", "false" if name_matches(fn, "Option::is_some_and") else "true")
+        if pred is None:
+            return [((), "?unwrap_or")]
+        return join(value_cases(prog, src, atom, depth + 1),
+                    lambda o: value_cases(prog, pred, atom, depth + 1) if o == "Some" else value_cases(prog, dflt, atom, depth + 1) if o == "None" else [((), o)])
+    return [((), "?call:" + str(fn).split("::")[-1])]
+
+
+def function_cases(prog, body, atom, ret_kinds=("Some", "None", "Ok", "Err", "true", "false")):
+    """Case table {frozenset(conds): {outcomes}} of a small loop-free function returning Option / Result / bool, whether it
+    is written with control flow (`match`, `if`, `?`, let-else), with combinators, or a mix: tests on atoms become
+    conditions along each path, the returned value is split symbolically with value_cases."""
+    def edge_sym(a, b, subj, labels, o):
+        lab = "|".join(sorted(labels))
+        if subj[0] == "discr":
+            r = strip_identity(subj[1])
+            via_try = False
+            if r[0] == "call" and name_matches(r[1], "Try::branch"):
+                via_try = True
+                r = strip_identity(r[2][0])
+            vc = value_cases(prog, r, atom)
+            if all(not o_.startswith("?") for _, o_ in vc) and vc:
+                want = set()
+                for l_ in labels:
+                    want |= {"Continue": {"Some", "Ok"}, "Break": {"None", "Err"}}.get(l_, {l_}) if via_try else {l_}
+                alts = tuple(c_ for c_, o_ in vc if o_ in want)
+                return ("\x00fcases", alts)
+            return f"?discr({show(r)[:40]})={lab}"
+        vc = value_cases(prog, subj, atom)
+        if vc and all(o_ in ("true", "false") for _, o_ in vc) and labels in ({"true"}, {"false"}):
+            return ("\x00fcases", tuple(c_ for c_, o_ in vc if o_ == ("true" if labels == {"true"} else "false")))
+        return f"?cond({show(subj)[:40]})={lab}"
+
+    def ret_of(t, o):
+        vc = value_cases(prog, t, atom)
+        return ("\x00fret", tuple(vc))
+
+    def stmt_sym(bb, s, o):
+        if s["lhs"] == 0:
+            return ret_of(o.of_rvalue(s["rv"]), o)
+        return None
+
+    def call_sym(c, o):
+        if c.dest == 0:
+            if name_matches(c.fn, "FromResidual::from_residual"):
+                return ("\x00fret", (((), "None" if body.local_ty(0).startswith("core::option::Option") else "Err"),))
+            args = tuple(o.of_operand(a) for a in c.args)
+            return ret_of(("call", c.fn or "?", args, c.bb), o)
+        return None
+    ws = words_of(body, call_sym, edge_sym, stmt_sym, keep_end=False)
+    table = {}
+    for w in ws:
+        condsets = [()]
+        rets = None
+        bad = []
+        for s_ in w:
+            if isinstance(s_, tuple) and len(s_) == 2 and s_[0] == "\x00fcases":
+                condsets = [c0 + c1 for c0 in condsets for c1 in s_[1]]
+            elif isinstance(s_, tuple) and len(s_) == 2 and s_[0] == "\x00fret":
+                rets = s_[1]
+            elif isinstance(s_, str) and s_.startswith("?"):
+                bad.append(s_)
+        if rets is None:
+            rets = (((), "?no-return"),)
+        for c0 in condsets:
+            for c1, o_ in rets:
+                cs = c0 + c1
+                d = {}
+                ok = True
+                for k_, v_ in cs:
+                    if d.get(k_, v_) != v_:
+                        ok = False          # contradictory conditions: infeasible combination
+                    d[k_] = v_
+                if not ok:
+                    continue
+                out = o_ if not bad else "?" + ";".join(bad)
+                table.setdefault(frozenset(d.items()), set()).add(out)
+    return table
+
+
+def table_lookup(table, **conds):
+    """outcomes of all rows compatible with the given atom values"""
+    out = set()
+    for k, v in table.items():
+        d = dict(k)
+        if all(d.get(a, b) == b for a, b in conds.items()):
+            out |= v
+    return out
